@@ -333,3 +333,9 @@ class Corr:
     def violate(self, key, inp, expected, observed, note=""):
         self.violations.append({"key": key, "input": inp, "expected": expected,
                                 "observed": observed, "note": note})
+
+
+def hot_addr(rng, n=64):
+    """a unit address: mostly one of a few 'hot' ones, so that successive runs of a harness meet DIFFERENT unit
+    states at the SAME address (anything the library remembers per address from an earlier call then shows)"""
+    return rng.choice([5, 0, n - 1]) if rng.random() < 0.6 else rng.randrange(n)
